@@ -24,6 +24,12 @@ func init() {
 		vpnOps(ev, p)
 		judge(rt, ev, oracleC01asaVPN, c, func() any { return c })
 	})
+	addArm("C07", "asa-vpn", func(rt *rapid.T, ev *evid.Collector) {
+		p := asam.GenPair(rt, asam.GenOpts{VPN: true, Decorate: true})
+		c := asaVPNCase("C07", p)
+		vpnOps(ev, p)
+		judge(rt, ev, oracleC07asaVPN, c, func() any { return c })
+	})
 	addArm("C08", "asa-vpn", func(rt *rapid.T, ev *evid.Collector) {
 		p := asam.GenPair(rt, asam.GenOpts{VPN: true})
 		c := asaVPNCase("C08", p)
